@@ -140,6 +140,21 @@ const FRAGMENTS: &[&str] = &["\\", "\\(", "\\)", "\"", "\"abc", "|", "|zz|", "|1
                              "case", "of", "endof", "endcase", "local", "var", "!", "let", "&", "^", "late", "immediate", "const", "enum", "endenum", "=", "include", "require",
                              "defined", "see", "foreach", "<name>", "\\ c", "1", "\"s\"", "|ff|", "nil", "x"];
 
+const CONSTRUCTS: &[&str] = &[
+    "enum T 170141183460469231731687303715884105727 = A : B endenum",
+    "enum T -170141183460469231731687303715884105728 = A : B endenum A B",
+    "enum T : A : B endenum A B T",
+    "enum T 1.5 = A endenum", "enum T = A endenum", "enum T : endenum", "enum : A endenum", "enum T 1 = : A endenum",
+    "enum T : A enum U : B endenum endenum",
+    "[ 1 2 ] let [ a & ]", "5 let [", "{ } let { 1", "[ 1 ] let [ ^ ]", "1 let ^ 5 x", "[ 1 2 3 ] let [ a & b & c ]", "[ ] let [ & & ]",
+    "{ 1 2 } let { 2 x { } }", "[ [ ] ] let [ [ a ] ]", "nil let [ ]", "1 let { }", "[ 1 ] let [ 170141183460469231731687303715884105727 ]",
+    "#( 1 const #)", "#( const x #)", "late", ": f late ;", "late f f", "late f : f f ; f",
+    ": f immediate ; f", ": f immediate f ; ", ": f : g immediate ; ; f g", "immediate", ": f 1 0 / immediate ; f",
+    "1 var", "var 5", "! 5", "1 ! nil", "local", ": f local ;", ": f 1 local 5 ;",
+    "#( #( #( 1 #) #) #)", "#( ~) 1", "#( \"#(\" ~) 1", "#( \"~)\" ~)", "#( \"\\\\\" ~)", "#( 1 2 3 ~)", "#( [ ] ~)", "#( nil ~) #)",
+    "include 5", "require nil", "include \"/nonexistent/file.xeh\"", "defined", "defined 5", "see", "see 5", "see dup",
+];
+
 /// xv total-pairs <trace> <progress-log> <stride>: all token sequences of length <= 2 over dictionary + structural tokens + fragments
 pub fn cmd_pairs(args: &[String]) -> i32 {
     let scratch = std::path::Path::new(&args[1]).parent().unwrap().join("scratch");
@@ -150,6 +165,11 @@ pub fn cmd_pairs(args: &[String]) -> i32 {
     let mut toks: Vec<String> = dictionary();
     for f in FRAGMENTS { if !toks.contains(&f.to_string()) { toks.push(f.to_string()); } }
     let mut k = 0usize;
+    // multi-token constructs with boundary values in every slot (enum counters, let patterns, definitions)
+    for c in CONSTRUCTS {
+        r.eval(c, false);
+        r.eval(c, true);
+    }
     for f in FRAGMENTS {
         r.eval(&format!("{}{}", " ".repeat(70_000), f), false);
         r.eval(&format!("1 {}{} 2", "\t".repeat(66_000), f), true);
